@@ -315,3 +315,81 @@ func VerifC13() {
 	}
 	verifrt.Reach("end")
 }
+
+// VerifC13Update: one writer replaces an item the way the partition's update
+// does (Remove, then Insert of the same id with a new vector) while one reader
+// searches. Every interleaving at lock acquisitions and atomic operations
+// within the preemption bound. The reader's answer must not contain an id
+// twice; every returned item carries the true score of a version of that item
+// that was live during the search (old or new vector for the updated id);
+// ascending, at most k. Afterwards the index holds the new version only.
+func VerifC13Update() {
+	verifrt.Preemptions(verifrt.Bound("preempt", 2))
+	verifrt.AtomicSwitch(verifrt.Bound("atomics", 1) == 1)
+	verifrt.RaceDetect(verifrt.Bound("race", 0) == 1)
+	cfgs := verifConfigs()
+	idx := verifNewIndex(1, cfgs[verifrt.Bound("cfg", 4)])
+	n0 := verifrt.IntIn("initial-items", verifrt.Bound("mininit", 2), verifrt.Bound("init", 3))
+	maxLevel := verifrt.Bound("maxlevel", 1)
+	for i := 0; i < n0; i++ {
+		if idx.Insert(verifId(i), verifC13Vec(i), nil, verifrt.IntIn("level", 0, maxLevel)) != nil {
+			verifrt.Assert(false, "sequential-insert-succeeds")
+			return
+		}
+	}
+	u := verifrt.IntIn("updated-id", 0, n0-1)
+	newVec := math.Vector{verifC13Pos[u] + 0.5}
+	newLvl := verifrt.IntIn("new-level", 0, maxLevel)
+	k := verifrt.IntIn("k", verifrt.Bound("mink", 1), n0)
+	q := math.Vector{verifC13Pos[verifrt.IntIn("query-at", 0, verifrt.Bound("queries", n0)-1)]}
+	var res SearchResult
+	var serr, rerr, ierr error
+	var wg sync.WaitGroup
+	start := make(chan struct{})
+	native := !verifrt.IsSymbolicRun()
+	wg.Add(2)
+	go func() {
+		defer wg.Done()
+		if native {
+			<-start
+		}
+		rerr = idx.Remove(verifId(u))
+		ierr = idx.Insert(verifId(u), newVec, nil, newLvl)
+	}()
+	go func() {
+		defer wg.Done()
+		if native {
+			<-start
+		}
+		res, serr = idx.Search(context.Background(), q, uint(k))
+	}()
+	close(start)
+	wg.Wait()
+	verifrt.Reach("joined")
+	verifrt.Assert(rerr == nil && ierr == nil, "update-succeeds")
+	verifrt.Assert(serr == nil, "concurrent-search-succeeds")
+	verifrt.Assert(len(res) <= k, "concurrent-search-at-most-k")
+	for j, item := range res {
+		i := verifIdIndex(item.Id)
+		verifrt.Assert(i >= 0 && i < n0, "concurrent-search-item-was-live-during-the-search")
+		if i < 0 || i >= n0 {
+			continue
+		}
+		for j2 := 0; j2 < j; j2++ {
+			verifrt.Assert(res[j2].Id != item.Id, "concurrent-search-returns-an-id-once")
+		}
+		okScore := item.Score == idx.space.Distance(q, verifC13Vec(i))
+		if i == u && item.Score == idx.space.Distance(q, newVec) {
+			okScore = true
+		}
+		verifrt.Assert(okScore, "concurrent-search-score-is-the-true-distance-of-a-version-of-the-item")
+		if j > 0 {
+			verifrt.Assert(res[j-1].Score <= item.Score, "concurrent-search-ascending")
+		}
+	}
+	// quiescence: the new version only
+	v, gerr := idx.Get(verifId(u))
+	verifrt.Assert(gerr == nil && len(v) == 1 && v[0] == newVec[0], "after-the-update-the-index-holds-the-new-version")
+	verifrt.Assert(idx.Len() == n0, "after-the-update-the-count-is-unchanged")
+	verifrt.Reach("end")
+}
